@@ -145,15 +145,15 @@ fn guarded(t: &TestingOhkami, script: Vec<Vec<u8>>, eof: bool) -> Value {
 }
 
 /// Scenarios in REAL time, through the real `Session::manage` over loopback TCP (hook H6), in a child process started with
-/// `OHKAMI_KEEPALIVE_TIMEOUT=1` (the configuration is read once per process): what no scripted connection can show — the timers of the session loop.
-///   keepalive : three requests 0.6 s apart (each well inside the Keep-Alive timeout, the session older than it at the third)
-///   slow      : one request whose handler takes 1.4 s
-///   stream    : an event stream with 0.7 s between its three messages (C17: "at any pace")
+/// `OHKAMI_KEEPALIVE_TIMEOUT=2` (the configuration is read once per process; every margin against the timeout is a full second, so a loaded machine does not matter): what no scripted connection can show — the timers of the session loop.
+///   keepalive : four requests 0.9 s apart (each well inside the Keep-Alive timeout, the session older than it at the fourth)
+///   slow      : one request whose handler takes 3 s
+///   stream    : an event stream with 1.5 s between its three messages (C17: "at any pace")
 ///   idle      : one request, then silence: the server ends the session after the timeout
 pub fn timed() -> Value {
     use std::io::Read;
     let exe = std::env::current_exe().unwrap();
-    let mut child = match std::process::Command::new(exe).arg("C05timed").env("OHKAMI_KEEPALIVE_TIMEOUT", "1")
+    let mut child = match std::process::Command::new(exe).arg("C05timed").env("OHKAMI_KEEPALIVE_TIMEOUT", "2")
         .stdin(std::process::Stdio::null()).stdout(std::process::Stdio::piped()).stderr(std::process::Stdio::null()).spawn() {
         Ok(c) => c, Err(e) => return json!({"panic": format!("harness: cannot start the timed child: {e}")}) };
     let mut out = String::new();
@@ -167,11 +167,11 @@ pub fn timed_child() -> ! {
     use std::time::Duration;
     use ohkami::sse::DataStream;
     async fn root() -> &'static str { "root" }
-    async fn slow() -> &'static str { tokio::time::sleep(Duration::from_millis(1400)).await; "slow" }
+    async fn slow() -> &'static str { tokio::time::sleep(Duration::from_millis(3000)).await; "slow" }
     async fn sse() -> DataStream {
         DataStream::new(|mut s| async move {
-            s.send("a"); tokio::time::sleep(Duration::from_millis(700)).await;
-            s.send("b"); tokio::time::sleep(Duration::from_millis(700)).await;
+            s.send("a"); tokio::time::sleep(Duration::from_millis(1500)).await;
+            s.send("b"); tokio::time::sleep(Duration::from_millis(1500)).await;
             s.send("c");
         })
     }
@@ -220,10 +220,10 @@ pub fn timed_child() -> ! {
     let local = tokio::task::LocalSet::new();
     let out = local.block_on(&rt, async move {
         let (ka, slow, stream, idle) = tokio::join!(
-            play(vec![(0, GET), (600, GET), (600, GET)], 300),
-            play(vec![(0, b"GET /slow HTTP/1.1\r\n\r\n")], 1800),
-            play(vec![(0, b"GET /sse HTTP/1.1\r\n\r\n")], 1000),
-            play(vec![(0, GET)], 1600),
+            play(vec![(0, GET), (900, GET), (900, GET), (900, GET)], 400),
+            play(vec![(0, b"GET /slow HTTP/1.1\r\n\r\n")], 4200),
+            play(vec![(0, b"GET /sse HTTP/1.1\r\n\r\n")], 2600),
+            play(vec![(0, GET)], 3200),
         );
         json!({"timed": {
             "keepalive": {"all": hex(&ka.0), "closed_by_server": ka.1},
